@@ -11,7 +11,6 @@ use crate::frames::{self, FrameShape};
 use crate::oracle::{normalise, v, Violation};
 use crate::reader;
 use crate::rng::{Hasher64, Rng};
-use crate::sink::Outcome;
 
 const BIG: usize = 64 << 20;
 
@@ -120,15 +119,64 @@ pub fn eval(case: &ProgCase, st: &mut RunStats) -> Vec<Violation> {
         return out;
     }
     st.count("four_gib_finish_ok", 1);
-    // locate the moov among the kept small writes
-    let moov = ex.sink.small_writes.iter().find(|(_, b)| b.len() >= 8 && &b[4..8] == b"moov");
-    let (_, moov) = match moov {
-        Some(m) => m,
-        None => {
-            out.push(v("C16", "four-gib", "no-moov", "finish succeeded but no moov box was written in one piece".to_string()));
+    // The sink kept the whole stream run-length encoded (the frames are constant filler after a stamped head),
+    // so the file can be read back at any offset, however the muxer split it into write calls.
+    let rle = &ex.sink.rle;
+    let read_at = |off: u64, n: usize| -> Option<Vec<u8>> { rle.read(off, n) };
+    let file_len = ex.sink.accepted_total;
+    let mut pos = 0u64;
+    let mut tops: Vec<([u8; 4], u64, u64, u64)> = Vec::new(); // type, start, size, header length
+    while pos < file_len {
+        let h = match read_at(pos, 8) {
+            Some(h) => h,
+            None => {
+                // a box header inside a large write: cannot be judged from what the sink kept
+                st.count("four_gib_walk_incomplete", 1);
+                return out;
+            }
+        };
+        let size32 = u32::from_be_bytes([h[0], h[1], h[2], h[3]]) as u64;
+        let typ = [h[4], h[5], h[6], h[7]];
+        let (size, hl) = if size32 == 1 {
+            match read_at(pos + 8, 8) {
+                Some(l) => (u64::from_be_bytes([l[0], l[1], l[2], l[3], l[4], l[5], l[6], l[7]]), 16u64),
+                None => {
+                    st.count("four_gib_walk_incomplete", 1);
+                    return out;
+                }
+            }
+        } else {
+            (size32, 8)
+        };
+        if size < hl || pos + size > file_len {
+            let what = if &typ == b"mdat" { "mdat".to_string() } else { format!("top-level:{}", String::from_utf8_lossy(&typ)) };
+            out.push(v("C16", "box-size", what, format!("4 GiB recording ({} payload bytes): box '{}' at {} declares {} bytes; the file has {} bytes, {} of them after this header", total, String::from_utf8_lossy(&typ), pos, size, file_len, file_len - pos - hl.min(file_len - pos))));
+            return out;
+        }
+        tops.push((typ, pos, size, hl));
+        pos += size;
+    }
+    if let Some(m) = tops.iter().find(|t| &t.0 == b"mdat") {
+        st.count("four_gib_mdat_header_checked", 1);
+        if m.2 != m.3 + total {
+            out.push(v("C16", "box-size", "mdat", format!("mdat header at {} declares {} bytes, payload + header = {}", m.1, m.2, m.3 + total)));
+            return out;
+        }
+    }
+    let moov_owned = match tops.iter().find(|t| &t.0 == b"moov") {
+        Some(t) if t.2 <= (64 << 20) => match read_at(t.1, t.2 as usize) {
+            Some(b) => b,
+            None => {
+                st.count("four_gib_walk_incomplete", 1);
+                return out;
+            }
+        },
+        _ => {
+            out.push(v("C16", "four-gib", "no-moov", "finish succeeded but the file has no moov box at the top level".to_string()));
             return out;
         }
     };
+    let moov = &moov_owned;
     let tree = match reader::parse_tree(moov) {
         Ok(t) => t,
         Err(e) => {
@@ -138,43 +186,43 @@ pub fn eval(case: &ProgCase, st: &mut RunStats) -> Vec<Violation> {
     };
     let mut probs = Vec::new();
     let movie = reader::decode_movie(moov, &tree, &mut probs);
-    // where the sink really received each sample: large accepted writes, in order; small samples by size match
-    let mut writes: Vec<(u64, u64)> = Vec::new();
-    for e in &ex.sink.events {
-        if let Outcome::Accepted(n) = e.outcome {
-            writes.push((e.offset, n as u64));
-        }
-    }
-    let is_sample_write = |off: u64, len: u64| writes.iter().any(|w| w.0 == off && w.1 == len);
+    // every sample of every track must resolve to the bytes of the accepted write it stands for (VP9, AV1 and
+    // Opus samples are stored unchanged)
+    let accepted = |video: bool| -> Vec<&Hex> {
+        case.ops
+            .iter()
+            .enumerate()
+            .filter(|(i, o)| ex.ops[*i].res.is_ok() && if video { matches!(o, Op::Video { .. }) } else { matches!(o, Op::Audio { .. }) })
+            .filter_map(|(_, o)| o.data())
+            .collect()
+    };
     let mut located = 0u64;
     for t in &movie.tracks {
+        let video = &t.handler == b"vide";
+        let want = accepted(video);
+        if want.len() != t.samples.len() {
+            out.push(v("C16", "four-gib", "sample-count", format!("4 GiB recording: track {} lists {} samples, {} writes were accepted", String::from_utf8_lossy(&t.handler), t.samples.len(), want.len())));
+            return out;
+        }
         for (k, s) in t.samples.iter().enumerate() {
-            if s.size == 0 {
-                continue;
+            let d = &want[k].0;
+            if s.size as usize != d.len() {
+                out.push(v("C16", "sample-size", "four-gib", format!("4 GiB recording: track {} sample {} has size {} in the table, {} bytes were written", String::from_utf8_lossy(&t.handler), k, s.size, d.len())));
+                return out;
             }
-            if !is_sample_write(s.offset, s.size as u64) {
-                // chunked (video-only): the sample may sit inside a run of writes; accept if some write starts there
-                if !writes.iter().any(|w| w.0 == s.offset) {
-                    let wrapped = writes.iter().any(|w| w.0 & 0xffff_ffff == s.offset && w.1 == s.size as u64);
-                    out.push(v(
-                        "C16",
-                        "chunk-offset",
-                        if wrapped { "wrapped-at-2^32" } else { "value" },
-                        format!("4 GiB recording ({} payload bytes, fast_start={}, audio={}): track {} sample {} is addressed at {} (size {}) but no write of the sink starts there{}", total, case.cfg.fast_start_effective(), case.cfg.audio.is_some(), String::from_utf8_lossy(&t.handler), k, s.offset, s.size, if wrapped { "; the true position is that value plus 2^32" } else { "" }),
-                    ));
-                    return out;
-                }
+            if !rle.holds(s.offset, d) {
+                let wrapped = s.offset.checked_add(1 << 32).map(|o| rle.holds(o, d)).unwrap_or(false);
+                out.push(v(
+                    "C16",
+                    "chunk-offset",
+                    if wrapped { "wrapped-at-2^32" } else { "value" },
+                    format!("4 GiB recording ({} payload bytes, fast_start={}, audio={}): track {} sample {} is addressed at {} (size {}) but the file does not hold its bytes there{}", total, case.cfg.fast_start_effective(), case.cfg.audio.is_some(), String::from_utf8_lossy(&t.handler), k, s.offset, s.size, if wrapped { "; it does at that value plus 2^32" } else { "" }),
+                ));
+                return out;
             }
             located += 1;
         }
     }
     st.count("four_gib_samples_located", located);
-    // mdat size field
-    if let Some((off, hdr)) = ex.sink.small_writes.iter().find(|(_, b)| b.len() == 4).map(|(o, b)| (*o, b.clone())) {
-        let declared = u32::from_be_bytes([hdr[0], hdr[1], hdr[2], hdr[3]]) as u64;
-        if declared != 8 + total {
-            out.push(v("C16", "box-size", "mdat", format!("mdat header at {} declares {} bytes, payload + 8 = {}", off, declared, 8 + total)));
-        }
-    }
     out
 }
